@@ -1,4 +1,9 @@
 """C02 — MIPS and PowerPC lifters agree with the architecture manuals (DESIGN §6 C02, LIFTER_BRIEF.md)."""
+import os
+import sys
+sys.path.insert(0, os.path.dirname(os.path.abspath(__file__)))
+import types  # noqa: E402
+import smt_tie  # noqa: E402
 ID = "C02"
 HARNESS_BIN = "c02"
 DRIVER = "fvd_c02"
@@ -33,6 +38,7 @@ TRUSTED = [
     "discharged by bv_decide; its _native.bv_decide axioms appear under ppc_lift_correct; all other proofs use only propext, "
     "Classical.choice, Quot.sound",
     "capstone's decoding is NOT trusted: the interpreters decode the raw word; a capstone/lifter operand mix-up shows as a disagreement",
+    smt_tie.TRUSTED,
 ]
 ASSUMPTIONS = [
     "the scalar `$zero` is not part of the MIPS register file (GPR[0] is the constant 0); LLbit is set when `sc` executes",
@@ -132,6 +138,26 @@ def classify(c):
     return "ok"
 
 
+def _only_mirror(c):
+    """the case is 'broken' for no other reason than `mirror=diff`"""
+    if c.model.startswith("unparsable") or c.model.startswith("bad-request") or c.impl == "bad-request":
+        return False
+    if _diff(c) is not None:
+        return False
+    m, mir = _model(c)
+    fp = _falcon_post(c)
+    return fp is not None and m == fp and mir == "diff"
+
+
+SMT = smt_tie.new_counters()
+
+
+def resolve_broken(check, cases):
+    """falcon's IL differs syntactically from the mirror's: z3 decides whether it differs semantically (props/smt_tie.py;
+    validation support for the mirror tie, not a theorem)"""
+    return smt_tie.resolve(check, types.SimpleNamespace(**globals()), cases, _only_mirror, SMT)
+
+
 def signature(c):
     parts = c.cls.split("/")
     arch, mn = parts[0], parts[1] if len(parts) > 1 else "?"
@@ -161,6 +187,7 @@ def nontrivial(c):
 
 def extra_coverage():
     return {
+        "mirror_tie_smt": SMT,
         "proved_classes_A": PROVED_A,
         "unproved_classes": UNPROVED,
         "assumptions": ASSUMPTIONS,
